@@ -693,4 +693,9 @@ def run(ctx, chk):
     import rules as _rbb
     import ownership as _Obb
     _rbb.check_fresh_block_bounds(chk, "C02.block-bounds", prog, eff, _Obb.PathCache(prog, eff))
+    chk.rule("C02.stateless", "the decoder is a function of its arguments: nothing reachable from cbor_load / cbor_stream_decode writes an object with static storage "
+             "(no memo of the previous call, no flag that survives it) - the answer for a buffer does not depend on what was decoded before "
+             "(transitive write sets from the effects engine; shared with C17.no-global-write)")
+    import rules as _rst
+    _rst.check_stateless(chk, "C02.stateless", prog, eff, ('cbor_load', 'cbor_stream_decode'))
     chk.exhaustive = True
